@@ -594,6 +594,13 @@ def gen_parse_ops(rng, tier):
         if "Do" in toks and not locdata(loc)["ordinal"]:
             loc = "en"
         zs, w, fold = gen_value(rng)
+        if toks in (["X"], ["x"]) and rng.random() < 0.5:
+            # timestamps at and around zero (the first second / millisecond of the epoch, the last ones before it), in any offset:
+            # a zero timestamp is a timestamp, not "no timestamp"
+            t_us = rng.choice((0, 0, 0, 1, 999, 1000, 999999, 500000, US, -1, -1000, -US, -US + 1, 86399 * US, rng.randint(-2 * US, 2 * US),
+                               rng.randint(0, 999), rng.randint(0, 999999)))
+            off = fixed_offsets(rng)
+            zs, w, fold = ("f", off), t_us + off * US, 0
         if "z" in toks and zs[0] != "z":
             zs = ("z", rng.choice(ZSPECIAL))
             d0 = native(("f", 0), w, 0).replace(tzinfo=None)
